@@ -71,12 +71,16 @@ pub fn check_image(files: Vec<(PathBuf, Vec<u8>)>, acceptable: &[u64], models: &
                 index.reader_builder().reload_policy(tantivy::ReloadPolicy::Manual).try_into().or_fail("recover:reader_open_failed")?;
             verify_searcher(&reader.searcher(), &f, &exp, "recovered+commit").map_err(|fl| Failure::new(format!("recover:after_commit:{}", fl.sig), fl.detail))?;
         }
+        let present: BTreeSet<String> = dir.file_names().into_iter().filter(|p| !p.starts_with('.')).collect();
+        let managed: BTreeSet<String> = index.directory().list_managed_files().iter().map(|p| p.to_string_lossy().to_string()).filter(|p| !p.starts_with('.')).collect();
+        // the persisted list of managed files matches the files that exist: a path that was registered but whose file
+        // never made it to storage (crash between the registration and the creation) is dropped by the collection
+        let dangling: Vec<&String> = managed.difference(&present).collect();
+        ensure!(dangling.is_empty(), "recover:managed_list_names_missing_files", "after recovery + commit + gc .managed.json still lists files that do not exist: {dangling:?}");
         if !orphans {
             return Ok(j);
         }
         // no-orphan predicate on the recovered directory (C10's crash clause)
-        let present: BTreeSet<String> = dir.file_names().into_iter().filter(|p| !p.starts_with('.')).collect();
-        let managed: BTreeSet<String> = index.directory().list_managed_files().iter().map(|p| p.to_string_lossy().to_string()).filter(|p| !p.starts_with('.')).collect();
         let mut allowed: BTreeSet<String> = BTreeSet::new();
         allowed.insert("meta.json".into());
         for m in index.searchable_segment_metas().or_fail("recover:metas_failed")? {
